@@ -165,3 +165,40 @@ func hasIfaceContract(eng *Engine, prof *Profile, cc *ssa.CallCommon) bool {
 	key := s[:i] + "::" + s[i+1:] + "." + cc.Method.Name()
 	return eng.contractFor(key, prof) != nil
 }
+
+// uncoveredReachers: library functions that can reach a primitive but carry no contract in the
+// profile (their neutrality follows only by composition of the contracts of what they call).
+func uncoveredReachers(eng *Engine, prof *Profile, cfg *PropConfig) []string {
+	prim := map[string]bool{}
+	for _, p := range cfg.Primitives {
+		prim[expandKey(p)] = true
+	}
+	direct := map[string]bool{}
+	for fn := range ssautil.AllFunctions(eng.prog) {
+		if fn.Pkg == nil || !strings.HasPrefix(fn.Pkg.Pkg.Path(), libPrefix) {
+			continue
+		}
+		k := funcKey(fn)
+		if fn.Parent() != nil {
+			k = funcKey(fn.Parent())
+		}
+		if eng.contractFor(k, prof) != nil || prim[k] {
+			continue
+		}
+		for _, b := range fn.Blocks {
+			for _, ins := range b.Instrs {
+				if ci, ok := ins.(ssa.CallInstruction); ok {
+					if sc := ci.Common().StaticCallee(); sc != nil && prim[funcKey(sc)] {
+						direct[k] = true
+					}
+				}
+			}
+		}
+	}
+	var out []string
+	for k := range direct {
+		out = append(out, strings.TrimPrefix(k, libPrefix))
+	}
+	sort.Strings(out)
+	return out
+}
